@@ -173,7 +173,12 @@ func (l *GNMILoop) Reapply(h *HistEnv, pfx, where string) *Failure {
 	_ = rsp
 	if h.Dev.Calls() > calls {
 		if rec := h.Dev.LastRecord(); rec != nil && len(rec.Updates)+len(rec.Deletes) > 0 {
-			return Failf(pfx+":loop:reapply-sends-change", "%s: re-submitting the live intents verbatim sent a change to the device (the running store is what the real sync made of the device's reports): %s\ndevice before: %s", where, JSON(rec), JSON(before))
+			var ps []IPath
+			for _, u := range rec.Updates {
+				ps = append(ps, u.Path)
+			}
+			return Failf(pfx+":loop:reapply-sends-change", "%s: re-submitting the live intents verbatim sent a change to the device (the running store is what the real sync made of the device's reports): %s\ndevice before: %s\nrunning store now:\n  %s\nintended store:\n  %s", where, JSON(rec), JSON(before),
+				RawStored(context.Background(), h.Env.Cache, h.DSName, cachepb.Store_CONFIG, ps), RawStored(context.Background(), h.Env.Cache, h.DSName, cachepb.Store_INTENDED, ps))
 		}
 	}
 	if d := h.Dev.Snapshot().Diff(before); len(d) > 0 {
